@@ -26,8 +26,24 @@ func genAnnotation(r Rnd, p, q int) string {
 	if chance(r, 1, 12) {
 		return genWords(r, 30) + " " + genWords(r, 30) // long line (> 200 bytes with the head)
 	}
+	if chance(r, 1, 3) {
+		// punctuation that is significant elsewhere in the language: slashes, asterisks, quotes, parentheses, '#'
+		// (block form only, see the renderer), keywords; never the sequence "*/"
+		n := 1 + r.Intn(4)
+		var ss []string
+		for i := 0; i < n; i++ {
+			if chance(r, 1, 2) {
+				ss = append(ss, pick(r, annotPunct))
+			} else {
+				ss = append(ss, pick(r, words))
+			}
+		}
+		return strings.Join(ss, " ")
+	}
 	return genWords(r, 1+r.Intn(4))
 }
+
+var annotPunct = []string{"/pets/", "/", "a/b", "same as /cats/", "*", "x*", "**", "/*", "//", "(see)", ")", "(", "\"q\"", "it's", "50%", "GET", "200", "Body", "@t1", "{id}", "café", "#1", "a#b", "# c", "\\", "x,y", "{}", "[1]"}
 
 func genDescription(r Rnd) []string {
 	n := 1 + r.Intn(4)
